@@ -26,6 +26,11 @@ type C12Opts struct {
 	OpsConfigRate float64
 	// TwoRevisions adds an older revision of one module to the set (DESIGN D40).
 	TwoRevisions bool
+	// SharedAction plants a grouping whose action spells out neither input nor output (or only one
+	// of them), uses it in several places that differ in effective config and in using module, and
+	// augments the unwritten input/output of the different instantiations from different modules:
+	// every instantiation must have input/output nodes of its own.
+	SharedAction bool
 }
 
 // C12Expect is what the oracle expects of one node.
@@ -89,6 +94,7 @@ type gmeta struct {
 	owner     *Module // (sub)module that defines it
 	top       bool    // module-level (visible to importers)
 	hasConfig bool
+	hasAction bool     // contains an action or notification (not to be used inside rpc/action/notification)
 	names     []string // names it contributes to a user (computed when complete)
 }
 
@@ -108,6 +114,9 @@ func ownerOf(m *Module) *Module {
 func GenerateC12(r *rand.Rand, opt C12Opts) *C12Set {
 	g := &c12gen{r: r, opt: opt, set: &Set{}, gInfo: map[*Node]*gmeta{}, trees: map[*Module]*xnode{}, feat: map[string]int{}}
 	nm := 1 + r.Intn(4)
+	if opt.SharedAction && nm < 3 {
+		nm = 3
+	}
 	names := []string{"a", "b", "c", "d"}
 	var mods []*Module
 	for i := 0; i < nm; i++ {
@@ -319,6 +328,11 @@ func (g *c12gen) finishGrouping(gr *Node) {
 				if c.Uses != nil && g.gInfo[c.Uses].hasConfig {
 					meta.hasConfig = true
 				}
+				if c.Uses != nil && g.gInfo[c.Uses].hasAction {
+					meta.hasAction = true
+				}
+			case "action", "notification":
+				meta.hasAction = true
 			case "grouping":
 			default:
 				walk(c)
@@ -378,7 +392,7 @@ func (g *c12gen) fill(m *Module, parent *Node, depth int, inOps bool, local []*N
 				loc = append(append([]*Node{}, local...), gr)
 			}
 			g.fill(m, c, depth+1, inOps, loc, inGrouping)
-			if !inOps && !inGrouping && g.chance(0.15) {
+			if !inOps && g.chance(0.15) {
 				g.rpc(m, c, "action", loc)
 			}
 			if !inOps && !inGrouping && g.chance(0.06) {
@@ -441,6 +455,9 @@ func (g *c12gen) fill(m *Module, parent *Node, depth int, inOps bool, local []*N
 			if inOps && meta.hasConfig && !g.chance(g.opt.OpsConfigRate) {
 				continue
 			}
+			if meta.hasAction && (inOps || top || parent.Kw == "case") {
+				continue // an action belongs into a container or list outside operations
+			}
 			clash := false
 			for _, nmx := range meta.names {
 				if used[nmx] {
@@ -482,6 +499,9 @@ func (g *c12gen) rpc(m *Module, parent *Node, kw string, local []*Node) {
 		}
 	}
 	r := parent.add(kw, rn)
+	if kw == "action" && g.chance(0.3) {
+		return // spells out neither input nor output
+	}
 	if g.chance(0.65) {
 		in := r.add("input", "")
 		g.fill(m, in, 2, true, local, false)
@@ -566,11 +586,7 @@ func (g *c12gen) augment(a *Module, mods []*Module) {
 	target := x
 	implicit := ""
 	if x.kw == "rpc" || x.kw == "action" {
-		// its input or output, written or not (an action without either has no RPC part in
-		// goyang: nothing to address)
-		if x.kw == "action" && len(x.kids) == 0 {
-			return
-		}
+		// its input or output, written or not
 		implicit = g.pick([]string{"input", "output"})
 		if c := x.child(implicit); c != nil {
 			target = c
@@ -634,7 +650,7 @@ func (g *c12gen) augment(a *Module, mods []*Module) {
 				v := vis[g.r.Intn(len(vis))]
 				gr := v[1].(*Node)
 				meta := g.gInfo[gr]
-				free := !(inOps && meta.hasConfig)
+				free := !(inOps && meta.hasConfig) && !(meta.hasAction && (inOps || (tkw != "container" && tkw != "list")))
 				for _, nmx := range meta.names {
 					if target.child(nmx) != nil {
 						free = false
